@@ -58,17 +58,21 @@ Trees ==
      \* 8: hidden symbolic links: to a file and to a directory, at the top and inside a directory, next to visible ones
      << N(<<nA>>, "d"), N(<<nA, nB>>, "d"), N(<<nD>>, "d"), N(<<nA, <<"f">>>>, "f"), N(<<<<"f">>>>, "f"),
         L(<<<<".", "l", "f">>>>, <<nA, <<"f">>>>), L(<<<<".", "l", "d">>>>, <<nD>>), L(<<nA, <<".", "l", "d">>>>, <<nD>>),
-        L(<<nA, <<".", "l">>>>, <<<<"f">>>>), L(<<<<"l">>>>, <<nD>>), L(<<nA, nLf>>, <<<<"f">>>>) >> >>
+        L(<<nA, <<".", "l">>>>, <<<<"f">>>>), L(<<<<"l">>>>, <<nD>>), L(<<nA, nLf>>, <<<<"f">>>>) >>,
+     \* 9: sibling directories where one name is a prefix of the other: "a" sorts before "a.d" as a name,
+     \*    but the path "a.d/b" sorts before "a/b" ('.' < '/'), so results must be sorted as whole paths
+     << N(<<nA>>, "d"), N(<<nA, nB>>, "f"), N(<<<<"a", ".", "d">>>>, "d"), N(<<<<"a", ".", "d">>, nB>>, "f"),
+        N(<<nB>>, "d"), N(<<nB, nB>>, "f") >> >>
   \o (IF ~Wide THEN <<>> ELSE
-  << \* 9: only hidden entries
+  << \* 10: only hidden entries
      << N(<<nDotH>>, "f"), N(<<<<".", "a">>>>, "d"), N(<<<<".", "a">>, nB>>, "f") >>,
-     \* 10: case variants
+     \* 11: case variants
      << N(<<nA>>, "f"), N(<<nAA>>, "f"), N(<<nAb>>, "f"), N(<<<<"A", "b">>>>, "f"), N(<<<<"D">>>>, "d"), N(<<<<"D">>, nA>>, "f") >>,
-     \* 11: a link to a link to a directory, a link to a file inside the directory
+     \* 12: a link to a link to a directory, a link to a file inside the directory
      << N(<<nA>>, "d"), N(<<nA, nB>>, "f"), L(<<nLa>>, <<nA>>), L(<<<<"l", "l">>>>, <<nLa>>), N(<<nD>>, "d"), N(<<nD, nA>>, "d"), N(<<nD, nA, nB>>, "f") >>,
-     \* 12: a directory whose name has a space, a file whose name is a pattern
+     \* 13: a directory whose name has a space, a file whose name is a pattern
      << N(<<nXY>>, "d"), N(<<nXY, nA>>, "f"), N(<<nStar>>, "f"), N(<<<<"s", "a">>>>, "f"), N(<<<<"[", "a", "b", "]">>>>, "f") >>,
-     \* 13: deep
+     \* 14: deep
      << N(<<nA>>, "d"), N(<<nA, nA>>, "d"), N(<<nA, nA, nA>>, "d"), N(<<nA, nA, nA, nB>>, "f"), N(<<nB>>, "f"), N(<<nA, nDotH>>, "d"), N(<<nA, nDotH, nA>>, "f") >> >>)
 
 HasNode(t, p) == \E i \in 1..Len(t) : t[i].p = p
